@@ -69,8 +69,24 @@ def gen_cases(rng, tier):
                              "1:0", "1/100:3", "1/8:3", "bad", "33333/100000:5"])
             ops.append(["cur_new", sym, minor, sf])
             ops.append(["observe"])
-        for i in range(6):
-            ops.append(["q_mk", "-", rat(Fraction(rng.randint(-10 ** 6, 10 ** 6), rng.choice([7, 1000, 3, 16]))),
+        # three currencies whose smallest fraction is NOT a power of ten
+        good = [(f"V{k}a", "-", "1/20:2"), (f"V{k}b", "2", "1/4:2"), (f"V{k}c", "3", "1/8:3")]
+        for sym, minor, sf in good:
+            ops.append(["cur_new", sym, minor, sf])
+        for i in range(12):
+            sym = rng.choice(good)[0]
+            num, den = rng.randint(-300, 300), rng.choice([1, 10, 100, 100, 1000])
+            ops.append(["q_mk", "-", rat(Fraction(num, den)), sym, rng.choice(MODES)])
+            if rng.random() < .4:
+                b = rat(Fraction(rng.randint(1, 300), rng.choice([10, 100])))
+                ops.append(["q_bin", rng.choice(["add", "sub"]), f"{rat(Fraction(num, den))}@{sym}",
+                            f"{b}@{sym}", rng.choice(MODES)])
+        for i in range(16):
+            # amounts with MANY and with FEW fractional digits (fewer than the
+            # smallest fraction has: 0.03 in a currency of 0.05 steps)
+            den = rng.choice([7, 1000, 3, 16, 1, 10, 100, 100, 100])
+            num = rng.randint(-10 ** 6, 10 ** 6) if den in (7, 1000, 3, 16) else rng.randint(-300, 300)
+            ops.append(["q_mk", "-", rat(Fraction(num, den)),
                         f"U{k}x{rng.randint(0, 11)}", rng.choice(MODES)])
         cases.append({"ops": ops, "fork": True, "tags": ["user-currencies"]})
     return cases
